@@ -252,7 +252,7 @@ impl Prop for EngineSpeed {
         "engine-speed".into()
     }
     fn rule(&self) -> String {
-        "engine (generated voice 70 %, bundled / perturbed 30 %), 1..150 labels (corpus sources; long utterances so that round(F1/s) != F1 even for s close to 1), speed from {1 | 1 +- 1e-6..1e-2 | log-uniform [0.25,4] | special values} set through Condition::set_speed; frames of Engine::generator (hook trajectories) == max(round(F1/s), labels*states) with F1 from the public Models::duration(); synthesize length == frames x fperiod on short cases. Non-trivial: speed != 1".into()
+        "engine (generated voice 70 %, bundled / perturbed 30 %), 1..150 labels (corpus sources; long utterances so that round(F1/s) != F1 even for s close to 1; 2 %: 330..450 labels of the bundled voice at speed 0.1..0.13, i.e. 50 000..90 000 frames), speed from {1 | 1 +- 1e-6..1e-2 | log-uniform [0.25,4] | special values} set through Condition::set_speed; frames of Engine::generator (hook trajectories) == max(round(F1/s), labels*states) with F1 from the public Models::duration(); synthesize length == frames x fperiod on short cases. Non-trivial: speed != 1".into()
     }
     fn tape_len(&self, _: Tier) -> usize {
         12000
@@ -261,6 +261,14 @@ impl Prop for EngineSpeed {
         tier.pick(3_000, 40_000)
     }
     fn decode(&self, t: &mut Tape, _: Tier) -> EngineCase {
+        // 2 %: a chapter read slowly - several hundred labels of the bundled voice at speed
+        // 0.1..0.13, 50 000..90 000 frames (frame counts beyond 16 bits)
+        if t.chance(0.02) {
+            let n = t.urange(330, 450);
+            let (labels, src) = gen_label_lines(t, n, false);
+            let speed = if t.chance(0.3) { 0.1 } else { t.uniform(0.1, 0.13) };
+            return EngineCase { voice: crate::engine_case::VoiceChoice::Bundled, source: src.name().into(), labels, speed };
+        }
         let n = match t.weighted(&[4, 3, 2]) {
             0 => t.urange(1, 5),
             1 => t.urange(6, 40),
@@ -291,7 +299,7 @@ impl Prop for EngineSpeed {
         let nstates = labels.len() * models.nstate();
         ensure!(dur.len() == nstates, "duration-len", "{} duration Gaussians for {} states", dur.len(), nstates);
         let f1: f64 = dur.iter().map(|MeanVari(m, _)| m.round().max(1.0)).sum();
-        if f1 / c.speed > 20_000.0 {
+        if f1 / c.speed > 200_000.0 {
             return Ok(Report::rejected("too-long"));
         }
         let (lo, hi) = if c.speed == 1.0 { (f1, f1) } else { round_candidates(f1 / c.speed, 1e-9) };
@@ -326,6 +334,8 @@ impl Prop for EngineSpeed {
         rep.nontrivial = c.speed != 1.0;
         rep.class(c.voice.class());
         rep.class_if(frames == nstates, "floor-all-ones");
+        rep.class_if(frames > 20_000, "more-than-20000-frames");
+        rep.class_if(frames > 65_535, "more-than-65535-frames");
         rep.class_if(c.labels.len() % 3 == 1, "time-stamped-lines-alignment-off");
         rep.class_if((c.speed - 1.0).abs() < 1e-2 && c.speed != 1.0, "speed-near-1");
         rep.class_if((c.speed - 1.0).abs() < 1e-2 && c.speed != 1.0 && (f1 / c.speed).round() != f1, "speed-near-1-and-total-differs");
